@@ -251,9 +251,51 @@ func lowOrderClassifier(c *an.Check) {
 			}
 			return "input reads not found / no masked read of the last byte (anchor drift)"
 		}())
+	// ACCUMULATE: the verdict must depend on every byte compared: inside the comparison loops the accumulator cell's new
+	// value is computed from its old value (c[i] |= …), never overwritten (c[i] = …), otherwise only the last bytes count
+	nAcc, badAcc := 0, ""
+	for _, b := range lo.Blocks {
+		if an.InnermostLoop(lo, b) == nil {
+			continue
+		}
+		for _, ins := range b.Instrs {
+			st, ok := ins.(*ssa.Store)
+			if !ok {
+				continue
+			}
+			ia, ok := st.Addr.(*ssa.IndexAddr)
+			if !ok {
+				continue
+			}
+			if _, isLocal := ia.X.(*ssa.Alloc); !isLocal {
+				continue
+			}
+			nAcc++
+			usesOld := p.DependsOn(st.Val, func(v ssa.Value) bool {
+				u, ok := v.(*ssa.UnOp)
+				if !ok || u.Op != token.MUL {
+					return false
+				}
+				oa, ok := u.X.(*ssa.IndexAddr)
+				return ok && oa.X == ia.X && oa.Index == ia.Index
+			})
+			if !usesOld {
+				badAcc = fmt.Sprintf("the accumulator element stored at %s is overwritten instead of combined with its previous value: bytes compared in earlier iterations no longer influence the verdict (ordinary keys are misclassified, or small-order ones missed)", p.Pos(st.Pos()))
+			}
+		}
+	}
+	c.Require(badAcc == "" && nAcc >= 2, "ACCUMULATE", "extra25519 classifier accumulates the comparison over all 32 bytes", lo, "", nAcc, "every accumulator store inside the loops depends on the element's previous value", func() string {
+		if badAcc != "" {
+			return badAcc
+		}
+		return "accumulator stores not found (anchor drift)"
+	}())
 }
 
 func c14(c *an.Check) {
+	privateScalarProvenance(c)
+	noUseAfterScrub(c, []*ssa.Function{c.P.Func("peer", "", "DeriveKey"), c.P.Func("peer", "", "EncryptToEd25519"), c.P.Func("peer", "", "DecryptWithEd25519")}, map[string]int{"Decode": 0})
+	ed25519PrivateKeyDecodeGates(c)
 	p := c.P
 	lowOrderClassifier(c)
 	// the classifier consults the table for all 32 bytes: it reads the table (structure only, no idiom matching)
@@ -392,4 +434,115 @@ func init() {
 func isByteConst(v ssa.Value, n int64) bool {
 	k, ok := v.(*ssa.Const)
 	return ok && k.Value != nil && k.Value.Kind() == constant.Int && k.Int64() == n
+}
+
+
+// privateScalarProvenance: the private-key conversion hashes exactly the 32-byte seed (privateKey[:32]) — for every key
+// length it can be handed — and returns the clamped digest.
+func privateScalarProvenance(c *an.Check) {
+	p := c.P
+	pk := p.Func("util/extra25519", "", "PrivateKeyToCurve25519")
+	ok, why := pk != nil, "unresolved anchor"
+	if pk != nil {
+		ok, why = false, "no hash Write of the key found"
+		for _, b := range pk.Blocks {
+			for _, ins := range b.Instrs {
+				call, isCall := ins.(*ssa.Call)
+				if !isCall || !call.Call.IsInvoke() || call.Call.Method.Name() != "Write" {
+					continue
+				}
+				sl, isSl := an.ConvOf(call.Call.Args[0]).(*ssa.Slice)
+				if isSl && an.IsParam(an.ConvOf(sl.X), 0) && (sl.Low == nil || an.IsIntConst(sl.Low, 0)) && sl.High != nil && an.IsIntConst(sl.High, 32) {
+					ok, why = true, ""
+				} else {
+					ok, why = false, "the bytes hashed into the scalar are not privateKey[:32] (the seed): keys of other lengths hash a different — possibly empty — prefix and collide"
+				}
+			}
+		}
+	}
+	c.Require(ok, "PROVENANCE", "extra25519.PrivateKeyToCurve25519 hashes exactly the 32-byte seed", pk, "", 1, "h.Write(privateKey[:32])", why)
+}
+
+// noUseAfterScrub: in the secret-key paths a buffer handed to scrub.Scrub (not deferred) is not read again by a later
+// call in the same function. writeOnlyDst names (callee, argument index) pairs that only write into the buffer.
+func noUseAfterScrub(c *an.Check, fns []*ssa.Function, writeOnlyDst map[string]int) {
+	p := c.P
+	n, bad := 0, ""
+	for _, fn := range fns {
+		if fn == nil {
+			continue
+		}
+		for _, b := range fn.Blocks {
+			for idx, ins := range b.Instrs {
+				sc, ok := ins.(*ssa.Call)
+				if !ok {
+					continue
+				}
+				fo := an.CallObj(sc.Common())
+				if fo == nil || fo.Name() != "Scrub" || len(sc.Call.Args) == 0 {
+					continue
+				}
+				n++
+				roots := map[ssa.Value]bool{}
+				for r := range an.AliasRoots(sc.Call.Args[0]) {
+					switch r.(type) {
+					case *ssa.Alloc, *ssa.Call, *ssa.MakeSlice:
+						roots[r] = true
+					}
+				}
+				// forward reachability from right after the scrub
+				seen := map[*ssa.BasicBlock]bool{}
+				var scan func(blk *ssa.BasicBlock, from int)
+				scan = func(blk *ssa.BasicBlock, from int) {
+					for _, i2 := range blk.Instrs[from:] {
+						cc, isCall := i2.(*ssa.Call)
+						if !isCall || i2 == ins {
+							continue
+						}
+						f2 := an.CallObj(cc.Common())
+						name := ""
+						if f2 != nil {
+							name = f2.Name()
+						} else if bi, isB := cc.Call.Value.(*ssa.Builtin); isB {
+							name = bi.Name()
+						}
+						if name == "Scrub" {
+							continue
+						}
+						redefined := false
+						for ai, a := range an.CallArgs(cc.Common()) {
+							if wi, isW := writeOnlyDst[name]; isW && wi == ai {
+								for r := range an.AliasRoots(a) {
+									if roots[r] {
+										redefined = true // the buffer is reused as a pure destination: new content from here on
+									}
+								}
+							}
+						}
+						if redefined {
+							return
+						}
+						for ai, a := range an.CallArgs(cc.Common()) {
+							if wi, isW := writeOnlyDst[name]; isW && wi == ai {
+								continue
+							}
+							for r := range an.AliasRoots(a) {
+								if roots[r] {
+									bad = fmt.Sprintf("%s: the buffer wiped at %s is passed to %s at %s afterwards: the callee works on zeroes instead of the secret", an.FuncName(fn), p.Pos(sc.Pos()), name, p.Pos(cc.Pos()))
+								}
+							}
+						}
+					}
+					for _, s := range blk.Succs {
+						if !seen[s] {
+							seen[s] = true
+							scan(s, 0)
+						}
+					}
+				}
+				scan(b, idx+1)
+			}
+		}
+	}
+	c.Require(bad == "" && n >= 1, "ORDER", "secret buffers are not used after they were wiped", nil, "", n, fmt.Sprintf("%d scrub sites; no later call reads a wiped buffer", n), bad)
 }
